@@ -3,7 +3,7 @@
     Model: Model/Hash.v ([canon] = the text Molecule.get_hash feeds to SHA-1, [prep_arr]/[prep_scalar] = float_prep,
     [canon_bonds] = the bond canonicalisation of from_arrays).  SHA-1 is a parameter assumed injective. *)
 From Coq Require Import ZArith QArith Qabs List String Bool Permutation Lia Lqa.
-Require Import QV.Common.Outcome QV.Common.HFRound QV.Common.HFHash QV.Gen.HashConsts QV.Model.Hash QV.Proofs.Hash QV.Proofs.HashPrep.
+Require Import QV.Common.Outcome QV.Common.HFRound QV.Common.HFBin64 QV.Common.HFHash QV.Gen.HashConsts QV.Model.Hash QV.Proofs.Hash QV.Proofs.HashPrep.
 Import ListNotations.
 Open Scope Z_scope.
 
@@ -55,6 +55,29 @@ Proof. exact prep_signed_zero. Qed.
 Theorem C11_tiny_is_zero : forall n x, 0 <= n -> (Qabs (scaled n x) < 1 # 2)%Q ->
   prep_arr n (FQ x) = 0 /\ prep_scalar n (FQ x) = 0.
 Proof. exact prep_tiny_is_zero. Qed.
+
+(** numpy.around on binary64: for every rounding [fl] of the product x*10^n that is monotone and exact on half-integers
+    up to B (IEEE-754 round-to-nearest-even has both properties with B = 2^52; they are hypotheses here, not modelled
+    bit by bit), rint(fl(x*10^n)) is the exact half-even rounding of x — the rounding all other theorems are stated
+    for — unless fl(x*10^n) is itself a half-integer; in particular whenever x*10^n is farther from every tie than the
+    rounding error u*|x*10^n| (u = 2^-53).  [prep_arr64] is float_prep with the executable binary64 product [fl64]
+    (compared with the machine's multiplication on every run); it agrees with [prep_arr] whenever the roundings do. *)
+Theorem C11_np_around_exact : forall (fl : Q -> Q) (B : Z),
+  (forall a b, (a <= b)%Q -> (fl a <= fl b)%Q) ->
+  (forall j : Z, Z.abs j <= B -> (fl (inject_Z j + (1 # 2)) == inject_Z j + (1 # 2))%Q) ->
+  forall n x, (Qabs (x * inject_Z (pow10 n)) <= inject_Z (B - 2)%Z)%Q -> ~ is_half (fl (x * inject_Z (pow10 n))%Q) ->
+  rint (fl (x * inject_Z (pow10 n))%Q) = round_n n x.
+Proof. exact np_around_exact. Qed.
+Theorem C11_np_around_exact_far : forall (fl : Q -> Q) (B : Z) (u : Q),
+  (forall a b, (a <= b)%Q -> (fl a <= fl b)%Q) ->
+  (forall j : Z, Z.abs j <= B -> (fl (inject_Z j + (1 # 2)) == inject_Z j + (1 # 2))%Q) ->
+  (forall s, (Qabs (fl s - s) <= u * Qabs s)%Q) ->
+  forall n x, (Qabs (x * inject_Z (pow10 n)) <= inject_Z (B - 2)%Z)%Q ->
+  (forall j : Z, (u * Qabs (x * inject_Z (pow10 n)) < Qabs (x * inject_Z (pow10 n) - (inject_Z j + (1 # 2))))%Q) ->
+  rint (fl (x * inject_Z (pow10 n))%Q) = round_n n x.
+Proof. exact np_around_exact_far. Qed.
+Theorem C11_prep_arr64_agrees : forall n x, 0 <= n -> around64 n x = round_n n x -> prep_arr64 n (FQ x) = prep_arr n (FQ x).
+Proof. exact prep_arr64_agrees. Qed.
 
 (** The geometry is prepared at construction and again when hashing: the second pass is the identity. *)
 Theorem C11_prep_idempotent : forall n x, 0 <= n -> prep_arr n (of_units n (prep_arr n x)) = prep_arr n x.
@@ -144,6 +167,19 @@ Proof.
     apply Qabs_case; intros; lra.
 Qed.
 
+(* the exceptional set is hit by doubles written as decimal ties: 0.015 is 0.01499999999999999944... as a double (below the
+   tie at 2 decimals) but 0.015 * 100 rounds to 1.5 exactly in binary64, so numpy gives 0.02 (tie to even) where the exact
+   value rounds to 0.01; likewise 1.442725105 at 8 decimals; a generic value agrees *)
+Example C11_ex_around64 :
+  around64 2 (1080863910568919 # 72057594037927936) = 2 /\ round_n 2 (1080863910568919 # 72057594037927936) = 1
+  /\ is_half (fl64 ((1080863910568919 # 72057594037927936) * inject_Z (pow10 2)))
+  /\ around64 8 (1624364061319015 # 1125899906842624) = 144272510 /\ round_n 8 (1624364061319015 # 1125899906842624) = 144272511
+  /\ around64 8 (123456789 # 1000000000) = round_n 8 (123456789 # 1000000000).
+Proof.
+  split; [vm_compute; reflexivity|]. split; [vm_compute; reflexivity|]. split; [exists 1; vm_compute; reflexivity|].
+  repeat split; vm_compute; reflexivity.
+Qed.
+
 Print Assumptions C11_canon_complete.
 Print Assumptions C11_canon_injective.
 Print Assumptions C11_canon_injective_without_wf_refuted.
@@ -153,6 +189,9 @@ Print Assumptions C11_independent_of_non_hash_fields.
 Print Assumptions C11_noise_insensitive.
 Print Assumptions C11_signed_zero_insensitive.
 Print Assumptions C11_tiny_is_zero.
+Print Assumptions C11_np_around_exact.
+Print Assumptions C11_np_around_exact_far.
+Print Assumptions C11_prep_arr64_agrees.
 Print Assumptions C11_prep_idempotent.
 Print Assumptions C11_sensitive.
 Print Assumptions C11_sensitive_scalar.
